@@ -98,6 +98,7 @@ func (e *hsEnd) start(nodes map[string]bool) {
 type hsSeg struct {
 	data      []byte
 	authentic int // index of the authentic frame (1-based), 0 = injected
+	full      int // length of the frame when it was written (a frame whose data is shorter has been partly read)
 }
 
 // hsPipeDir is one direction of the pipe.
@@ -163,7 +164,7 @@ func (s *hsSide) Write(p []byte) (int, error) {
 	// one Write call = one authentic frame (header + body are written together by writeData)
 	dir.frames++
 	data := append([]byte{}, p...)
-	dir.segs = append(dir.segs, hsSeg{data: data, authentic: dir.frames})
+	dir.segs = append(dir.segs, hsSeg{data: data, authentic: dir.frames, full: len(data)})
 	if s.isOut {
 		c.recorded = append(c.recorded, data)
 	} else {
@@ -454,7 +455,8 @@ func runC14(r *core.Run) {
 				if !dirIn {
 					rec = o.recordedBack
 				}
-				if len(rec) > 0 && !sameEnds {
+				// (the first frame a side wrote is its credentials unless it refused at once: then it is an ack)
+				if len(rec) > 0 && !sameEnds && len(rec[0]) > 5 && rec[0][0] == 1 {
 					src = append(src, rec[0])
 				}
 			}
@@ -462,7 +464,10 @@ func runC14(r *core.Run) {
 				continue
 			}
 			rep := hsSeg{data: append([]byte{}, src[s.Choose("replay-src", len(src))]...), authentic: -1}
-			if len(dir.segs) > 0 && dir.segs[0].authentic == 1 && len(dir.segs[0].data) > 5 && s.Flip("replay-replaces", 0.6) {
+			// (only a frame nobody has started to read can be replaced as a whole; splicing foreign bytes into the
+			// unread tail of a frame alters the client version string at most, which no signature covers and only the
+			// transport's integrity protection guards)
+			if len(dir.segs) > 0 && dir.segs[0].authentic == 1 && len(dir.segs[0].data) == dir.segs[0].full && s.Flip("replay-replaces", 0.6) {
 				// a man in the middle substitutes the recorded credentials for the sender's own
 				dir.segs[0] = rep
 				r.Event("fault", "conn%d %s credentials recorded between other endpoints substituted for the sender's", c.n, dn)
